@@ -56,16 +56,24 @@ def failure_key(prop, c, a, p):
     return prop + ":" + ";".join(parts)
 
 
+DIED = {"err": True, "n": 0, "out": [], "panicked": "the process died while decoding this case (unrecoverable fault)",
+        "canary": True, "srcok": True, "dictok": True, "stable": False, "sha": ""}
+
+
 def run_cases(binaries, cases_path, d, tag):
+    """Execute the cases on both builds (sharded).  A case that kills the process (a fault the runtime
+    cannot turn into a panic) gets a synthetic observation saying so."""
+    from checks import framelib as fl
+    cases = vlib.read_ndjson(cases_path)
+    for c in cases:
+        c["case"] = c["id"]
     outs = []
-    with cf.ThreadPoolExecutor(2) as ex:
-        futs = []
-        for name, b in binaries:
-            o = os.path.join(d, "%s-%s.ndjson" % (tag, name))
-            futs.append((o, ex.submit(vlib.harness, b, "blk-run", "--cases", cases_path, "--out", o)))
-        for o, f in futs:
-            f.result()
-            outs.append({r["case"]: r for r in vlib.read_ndjson(o)})
+    for name, b in binaries:
+        recs, faults = fl.shard_run(b, "blk-run", cases, d, "%s-%s" % (tag, name), nshards=min(8, vlib.NCPU))
+        for c in cases:
+            if c["id"] not in recs:
+                recs[c["id"]] = dict(DIED, case=c["id"])
+        outs.append(recs)
     return outs
 
 
